@@ -213,8 +213,10 @@ def extra(tier, ctx, seed):
         case = {"part": "helper", "spelling": kind, "dst": dst, "width": w, "fn": fn}
         ctx.cell(case, _helper_cell)
         n_help += 1
-    return {"exhaustive_grid_conversions": n_conv, "exhaustive_helper_cells": n_help, "exhaustive": False,
-            "grid_note": "the conversion grid and the dtype-spelling grid are enumerated completely on every run; the generated part is not exhaustive"}
+    return {"exhaustive_grid_conversions": n_conv, "exhaustive_helper_cells": n_help, "exhaustive": True,
+            "exhaustive_note": "refers to the finite grids the property quantifies over: class x source ns x target ns x width x dtype request x "
+                               "field subset x route, and dtype spelling x namespace x helper - both enumerated completely on every run; "
+                               "the generated part (values, shapes, sampler runs, flow outputs) is sampled, not exhaustive"}
 
 
 # ---- generated part ----------------------------------------------------------------------------
